@@ -15,4 +15,4 @@ CONSTANTS
   Defect_ReconnectInline = FALSE
   Mut = "none"
 INVARIANTS TypeOK NoPanic AllClosedAfterClose QueryAfterClose CancelAfterPools
-PROPERTIES CloseReturns StopReturns NobodyStuck GoroutinesExit
+
